@@ -418,3 +418,93 @@ func c13Round5(c *Ctx) {
 		c.Check(ok, "C13.apply", fname(fn)+":the write log is applied to a fresh tree at the given root", c.P.Pos(fn.Pos()), "ApplyWriteLog's receiver is NewWithRoot(…, root) created in Apply", "the tree a received write log is applied to is not (only) a tree freshly opened at the given root ("+bad+"): state left by an earlier Apply takes part in the result that is compared with the expected root")
 	}
 }
+
+// c12Round5 (seeds C12r5/13..15).
+func c12Round5(c *Ctx) {
+	const pb = "storage/mkvs/db/pathbadger"
+	// (15) lock order of the multipart restore: a chunk batch holds its root type's mpLock from NewBatch to
+	// Commit/Reset and takes metaUpdateLock inside (Commit, refreshDbPtr). Nobody may therefore wait for an mpLock while
+	// holding metaUpdateLock: NewBatch itself releases metaUpdateLock first. An Abort that did would deadlock with an
+	// open chunk batch and wedge the node database (restores run from concurrent callers).
+	nLock := 0
+	for _, fn := range c.P.FuncsInPkg(pb) {
+		if fn.Blocks == nil {
+			continue
+		}
+		var metaLocks, mpLocks, metaUnlocks []ssa.Instruction
+		for _, call := range callsIn(fn) {
+			n := calleeName(call)
+			if n != "sync.(*Mutex).Lock" && n != "sync.(*Mutex).Unlock" {
+				continue
+			}
+			r := vstr(recvOf(call))
+			_, deferred := call.(*ssa.Defer)
+			switch {
+			case n == "sync.(*Mutex).Lock" && strings.Contains(r, "metaUpdateLock"):
+				metaLocks = append(metaLocks, call)
+			case n == "sync.(*Mutex).Unlock" && strings.Contains(r, "metaUpdateLock") && !deferred:
+				metaUnlocks = append(metaUnlocks, call)
+			case n == "sync.(*Mutex).Lock" && strings.Contains(r, "mpLock"):
+				mpLocks = append(mpLocks, call)
+			}
+		}
+		if len(metaLocks) == 0 || len(mpLocks) == 0 {
+			continue
+		}
+		nLock++
+		cut := NewCut().AddInstr(metaUnlocks...)
+		var hit ssa.Instruction
+		for _, l := range metaLocks {
+			if h := Reach(fn, l, nil, anyOf(mpLocks), cut); h != nil {
+				hit = h
+			}
+		}
+		site := c.P.Pos(fn.Pos())
+		if hit != nil {
+			site = c.P.InstrPos(hit)
+		}
+		c.Check(hit == nil, "C12.mproot", fname(fn)+":no mpLock taken while metaUpdateLock is held", site, "metaUpdateLock is released before an mpLock is waited for", "an mpLock is acquired while metaUpdateLock is held; chunk batches hold mpLock and take metaUpdateLock inside, so the two orders deadlock (an abort during a concurrent chunk import wedges the node database)")
+	}
+	c.Floor("C12.mproot", nLock, 1, "functions that take both metaUpdateLock and an mpLock")
+
+	// (14) StartMultipartInsert for a restore that is already in progress at the same version changes nothing: the
+	// per-root-type restore state (root pointer, last index, sequence number) is (re)built only when no restore is in
+	// progress. Rebuilding it restarts the node numbering at 1 over the nodes already restored.
+	if fn := c.needFn("C12.restore", pb+".(*badgerNodeDB).StartMultipartInsert"); fn != nil {
+		st := StoresTo(fn, "d.multipartMeta =", pb+".badgerNodeDB.multipartMeta")
+		c.DominatedByCond("C12.restore", fn, "no restore in progress", `^\*param:d\.multipartVersion == 0$`, st, "the state of a restore in progress (indices handed out, root, sequence numbers) is kept when the same version is started again")
+	}
+
+	// (13) multipartMergeWithExisting looks at every child pointer pair of the stored and the imported node: no
+	// success exit from inside the loop over the pairs (an early return after an absent left child left the right child
+	// without its stored index; a later chunk then renumbered it and orphaned the subtree restored earlier).
+	if fn := c.needFn("C12.restore", pb+".(*badgerBatch).multipartMergeWithExisting"); fn != nil {
+		var cyc []*ssa.BasicBlock
+		for _, b := range fn.Blocks {
+			if inCycle(b) {
+				cyc = append(cyc, b)
+			}
+		}
+		isHeader := func(h *ssa.BasicBlock) bool {
+			for _, b := range cyc {
+				if !h.Dominates(b) {
+					return false
+				}
+			}
+			return true
+		}
+		var bad ssa.Instruction
+		for _, r := range SuccessReturns(fn) {
+			for _, b := range cyc {
+				if !isHeader(b) && b.Dominates(r.Block()) {
+					bad = r
+				}
+			}
+		}
+		site := c.P.Pos(fn.Pos())
+		if bad != nil {
+			site = c.P.InstrPos(bad)
+		}
+		c.Check(len(cyc) > 0 && bad == nil, "C12.restore", fname(fn)+":every child pointer pair is visited", site, "no success return from inside the loop over the (left, right, leaf) pairs", "multipartMergeWithExisting returns success from inside the loop over the child pointer pairs: the remaining children of an already stored node are not given their stored indices, a later chunk numbers them anew and the subtree restored earlier is orphaned")
+	}
+}
